@@ -26,6 +26,8 @@ CONFIGS = [
 
 
 def body(c):
+    if c.replay:
+        return S.replay_file(c)
     q = c.quick
     rnd = random.Random(c.seed)
     # 1. design level: chain of two backups, commits anywhere
@@ -40,7 +42,7 @@ def body(c):
         S.mc_stream(c, "chain2-2prod-3commit-disc", big, module="Backup", invariants=S.BACKUP_INV, timeout=1500)
         three = S.stream_consts(5, [1, 1, 2, 3, 3], [1, 1, 1, 1, 1], 2, 3, 2, [{1, 3}, {2, 5}], ("set", "del"), 2,
                                 "backup", 2, (0,), True, chosen={1, 2, 3, 5})
-        S.mc_stream(c, "chain2-3prod-3range", three, module="Backup", invariants=S.BACKUP_INV, timeout=1500)
+        S.mc_stream(c, "chain2-3prod-3range", three, module="Backup", invariants=S.BACKUP_INV, timeout=1500, coverage=False)
     asis = dict(small, SharedSnapshot=False)
     r = S.mc_stream(c, "as-is-chain2", asis, module="Backup", invariants=["ChainComplete"], timeout=300, workers=4,
                     expect_violation=True)
@@ -61,7 +63,8 @@ def body(c):
             cases = S.gen_stream(c, label, consts, 1, num=800, seed=c.seed, workers=4, timeout=120, depth=120)
             cases = rnd.sample(cases, min(len(cases), 200))
         else:
-            cases = S.gen_stream(c, label, consts, 1, num=16000, seed=c.seed, workers=8, timeout=600, depth=120)
+            cases = S.gen_stream(c, label, consts, 1, num=3000, seed=c.seed, workers=8, timeout=600, depth=120)
+            cases = rnd.sample(cases, min(len(cases), 900))
         res = S.replay_stream(c, cases, pr, layout, numgo, prefix, "backup", 2, None, label)
         total += len(cases)
         for h, rr in zip(cases, res):
